@@ -11,9 +11,9 @@
 (* resolver may have run and `execute` must not have been reached.         *)
 (* Not compared: messages, which rule reported, the number of errors.      *)
 (* A mismatch that is reproduced by switching on named deviations of the   *)
-(* implementation yields "known:<Dev,...>" (smallest set first); only      *)
-(* deviations that change the verdict of Validation on THIS document       *)
-(* (their trigger) are tried.                                              *)
+(* implementation yields "known:<Dev,...>": the smallest set of switches    *)
+(* that reproduces the observed outcome, so every deviation named is       *)
+(* necessary on THIS document (its trigger).                               *)
 (***************************************************************************)
 EXTENDS Validation, Json, IOUtils
 
@@ -59,12 +59,17 @@ WellFormedRejection(c) ==
 
 \* ---- verdict ----
 Predict(c, D) == Violations(Ctx(c, TsOf(c), D)) # {}
-Triggered(c, ideal) == {d \in AllDevs : Violations(Ctx(c, TsOf(c), {d})) # ideal}
-Explaining(c, ideal) == {D \in SUBSET Triggered(c, ideal) : D # {} /\ Cardinality(D) <= 3 /\ Predict(c, D) = Rejected(c)}
-FirstDev(c, ideal) ==
-  LET E == Explaining(c, ideal) IN
-  IF E = {} THEN (IF Rejected(c) THEN "v:rejected-valid" ELSE "v:accepted-invalid")
-  ELSE "k:" \o Code(CHOOSE D \in E : \A D2 \in E : Cardinality(D2) >= Cardinality(D), DevList, 1)
+Explains(c, D) == Predict(c, D) = Rejected(c)
+OfSize(n) == {D \in SUBSET AllDevs : Cardinality(D) = n}
+\* The smallest set of deviation switches that reproduces the observed outcome (sets are tried by increasing
+\* size, so no proper subset explains it: every named deviation is necessary for the explanation -- this is the
+\* trigger: a deviation is only blamed on a document on which switching it off changes the predicted outcome).
+RECURSIVE Smallest(_, _)
+Smallest(c, n) ==
+  IF n > 4 THEN (IF Rejected(c) THEN "v:rejected-valid" ELSE "v:accepted-invalid")
+  ELSE IF \E D \in OfSize(n) : Explains(c, D) THEN "k:" \o Code(CHOOSE D \in OfSize(n) : Explains(c, D), DevList, 1)
+  ELSE Smallest(c, n + 1)
+FirstDev(c, ideal) == Smallest(c, 1)
 
 Verdict(c, ideal) ==
   IF c.obs.problem # "" THEN "v:problem"
